@@ -29,6 +29,10 @@ type c19Case struct {
 	Expr    *c19Expr `json:"expr,omitempty"`
 	Inserts []Feat   `json:"inserts,omitempty"`
 	Triple  []Loc    `json:"triple,omitempty"`
+	// cli-select: gts select [-v] [-s strand] Sels... on a record that holds Table
+	Sels   []string `json:"sels,omitempty"`
+	Invert bool     `json:"invert,omitempty"`
+	Strand string   `json:"strand,omitempty"`
 }
 
 // ---- reference selector -------------------------------------------------------------------
@@ -247,7 +251,67 @@ func featKeyOf(f gts.Feature) string {
 	return fmt.Sprintf("%s|%s|%v", f.Key, ast, f.Props)
 }
 
+// c19CliSelect: the features `gts select` writes are those of the table, in table order, for which
+// strand-ok AND (key is source OR (some selector accepts XOR -v)); with no selector everything "matches".
+func c19CliSelect(c c19Case) *Violation {
+	table := make([]Feat, len(c.Table))
+	for i, f := range c.Table {
+		f.Quals = append([][]string{{"label", fmt.Sprintf("L%d", i)}}, f.Quals...)
+		table[i] = f
+	}
+	args := []string{"select", "--no-cache"}
+	if c.Invert {
+		args = append(args, "-v")
+	}
+	if c.Strand != "" {
+		args = append(args, "-s", c.Strand)
+	}
+	args = append(args, c.Sels...)
+	what := fmt.Sprintf("gts %q on %s", args, tableString(featsToGts(table)))
+	env := newCliEnv()
+	defer env.remove()
+	res := env.run(args, smallRecord("SEL", false, 12, table), false)
+	if res.Exit != 0 {
+		return viol("cli-exit", "%s: exit %d (%s)", what, res.Exit, clipStr(res.Stderr, 200))
+	}
+	recs, errText, pi := readGenBank(string(res.Out))
+	if pi != nil || errText != "" || len(recs) != 1 {
+		return viol("cli-output", "%s: output is not one GenBank record (%d records, error %q)", what, len(recs), errText)
+	}
+	var want []string
+	for _, f := range table {
+		fwd, rev := refStrand(f.Loc)
+		if (c.Strand == "forward" && !fwd) || (c.Strand == "reverse" && !rev) {
+			continue
+		}
+		hit := len(c.Sels) == 0
+		for _, sel := range c.Sels {
+			key, clauses, err := refSelector(sel)
+			if err != nil {
+				panic("harness: cli-select drew an invalid selector " + sel)
+			}
+			if refAccept(key, clauses, f) {
+				hit = true
+			}
+		}
+		if f.Key == "source" || hit != c.Invert {
+			want = append(want, f.Key+":"+f.label())
+		}
+	}
+	var got []string
+	for _, f := range recs[0].Features() {
+		got = append(got, f.Key+":"+labelOf(f))
+	}
+	if fmt.Sprint(got) != fmt.Sprint(want) {
+		return viol("cli-select", "%s: wrote %v, want %v", what, got, want)
+	}
+	return nil
+}
+
 func c19Check(c c19Case) *Violation {
+	if c.Mode == "cli-select" {
+		return c19CliSelect(c)
+	}
 	switch c.Mode {
 	case "selector":
 		key, clauses, rerr := refSelector(c.Sel)
@@ -585,9 +649,31 @@ func noNestedComplement(l Loc, under bool) Loc {
 	return l
 }
 
+var genCli bool // c19Gen draws gts select invocations instead of library cases
+
 func c19Gen(t *rapid.T) c19Case {
 	L := 12
 	cfg := locCfg{L: L, Hot: []int{0, 3, 6, 12}, MaxDepth: 2, MaxParts: 3, Ambig: true, Sites: true, MaxSpan: 5}
+	if genCli {
+		table := c19GenTable(t, rapid.IntRange(1, 7).Draw(t, "n"), cfg)
+		for i := range table {
+			fixed := noNestedComplement(table[i].Loc, false)
+			table[i].Loc, _ = fromGts(toGts(fixed))
+			if !hasResidue(den(table[i].Loc)) || !table[i].Loc.inBounds(L) {
+				table[i].Loc = lpt(3)
+			}
+			if rapid.IntRange(0, 5).Draw(t, "src") == 0 {
+				table[i].Key = "source"
+			}
+		}
+		c := c19Case{Mode: "cli-select", Table: table, Invert: rapid.Bool().Draw(t, "invert"), Strand: rapid.SampledFrom([]string{"", "", "both", "forward", "reverse"}).Draw(t, "strand")}
+		for k := rapid.IntRange(0, 3).Draw(t, "nsel"); k > 0; k-- {
+			if sel := c19GenSelector(t, false); sel != "" && !strings.HasPrefix(sel, "-") {
+				c.Sels = append(c.Sels, sel)
+			}
+		}
+		return c
+	}
 	switch rapid.IntRange(0, 4).Draw(t, "mode") {
 	case 0, 1:
 		return c19Case{Mode: "selector", Table: c19GenTable(t, rapid.IntRange(0, 8).Draw(t, "n"), cfg), Sel: c19GenSelector(t, true)}
@@ -619,6 +705,13 @@ func TestC19(t *testing.T) {
 	st := newStats("C19")
 	defer st.flush()
 	rapidPart(t, c19Prop, st, "rapid", pick(40000, 300000), c19Gen)
+	if t.Failed() {
+		return
+	}
+	// the same algebra through the command line: gts select with 0..3 selectors, -v and -s
+	genCli = true
+	rapidPart(t, c19Prop, st, "rapid-cli-select", pick(300, 4000), c19Gen)
+	genCli = false
 	if t.Failed() {
 		return
 	}
